@@ -304,6 +304,7 @@ type c1prog struct {
 	name   string // corpus file or "gen"
 	stream string // gen | marks | corpus
 	src    string
+	extra  [][]string // explicit arrangements evaluated besides the random ones (late stream)
 }
 
 type c1runner struct {
@@ -462,15 +463,34 @@ func (x *c1runner) check(p c1prog, r *Rng) int {
 	}
 	fails := 0
 	nontrivial := false
-	for j := 0; j < x.k; j++ {
+	for j := 0; j < x.k+len(p.extra); j++ {
 		rr := r.Sub()
 		kinds := c1kinds(c1allKinds...)
 		// every third arrangement uses a single kind, which makes triage immediate
 		if j%3 == 2 {
 			kinds = c1kinds(Pick(rr, c1allKinds))
 		}
+		if j >= x.k {
+			kinds = c1kinds("perm")
+		}
 		recipe := c1arr{rng: *rr, kinds: kinds}
-		texts, applied, err := c1Rearrange(p.src, rr, kinds, 40)
+		var texts []string
+		var applied map[string]int
+		var err error
+		if j >= x.k {
+			// an explicit arrangement of the program's own generator (every order of holder
+			// and user, split / merged user, files): perm (+ split, files)
+			texts, applied = p.extra[j-x.k], map[string]int{"perm": 1}
+			if len(texts) > 1 {
+				applied["files"] = 1
+			}
+			if strings.Count(strings.Join(texts, "\n"), "out:") > 1 {
+				applied["split"] = 1
+			}
+			c.Count(p.stream + ":explicit-arrangements")
+		} else {
+			texts, applied, err = c1Rearrange(p.src, rr, kinds, 40)
+		}
 		if err != nil {
 			c.Count(p.stream + ":rearrange-error")
 			continue
@@ -646,7 +666,11 @@ func c1classify(p c1prog, base, res c1res, diffs []c1diff, texts ...string) (str
 	}
 	hasRef := true // an error whose class differs always comes from evaluating a reference / expression
 	bothErr := base.info.nErr > 0 && res.info.nErr > 0
-	embRef := c1hasEmbeddedRef(p.src)
+	// closedness findings need a SOURCE of closedness (a definition or close()); an embedded
+	// reference in a program without one (`out: {s.a, z: 3}` of the late-constraints stream) is
+	// no instance of them
+	closedSrc := strings.Contains(p.src, "#") || strings.Contains(p.src, "close(")
+	embRef := c1hasEmbeddedRef(p.src) && closedSrc
 	embRefSyn := embRef
 	sibFirst := !embRef && c1hasSiblingRefConj(p.src)
 	if !embRef && !sibFirst && (strings.Contains(p.src, "#") || strings.Contains(p.src, "close(")) {
@@ -724,14 +748,22 @@ func c1classify(p c1prog, base, res c1res, diffs []c1diff, texts ...string) (str
 			c1emptyOrTopRe.ReplaceAllString(sa, "⊤") == c1emptyOrTopRe.ReplaceAllString(sb, "⊤"):
 			// the same `{}` versus `_` difference inside a disjunct or another untracked part
 			found["top-unified-with-struct-holding-failing-comprehension"] = true
-		case compr && !embRefSyn && d.kind == "err-vs-value" && (sa == "_|_(incomplete)" || sb == "_|_(incomplete)"):
+		case compr && !embRefSyn && d.kind == "err-vs-value" && (sa == "_|_(incomplete)" || sb == "_|_(incomplete)") &&
+			base.info.nInc > 0 && res.info.nInc > 0:
+			// (the pending comprehension is incomplete in BOTH arrangements; a user that is
+			// incomplete in one arrangement of a program which is complete in the other — e.g.
+			// for want of a conjunct a decidable comprehension delivers — is not this finding)
 			// a reference into a struct whose comprehension cannot be decided yet
 			found["incomplete-placement-through-reference-into-struct-with-pending-comprehension"] = true
 		case d.kind == "err-class" && hasRef && compr:
 			found["missing-field-reference-inside-comprehension-fatal-vs-incomplete"] = true
 		case d.kind == "err-class" && hasRef:
 			found["missing-field-reference-fatal-vs-incomplete"] = true
-		case (d.kind == "err-vs-value" || d.kind == "absent") && embRef:
+		case (d.kind == "err-vs-value" || d.kind == "absent" && len(errPaths) > 0) && embRef:
+			// (a path absent on one side belongs to this finding only next to a `field not
+			// allowed` error somewhere in the pair: a value that merely MISSES fields /
+			// conjuncts in one arrangement, with no error on either side, is not a closedness
+			// difference)
 			found["closedness-of-embedded-reference-depends-on-arrangement"] = true
 		case d.kind == "value" && embRef && c1flagRe.ReplaceAllString(sa, "") == c1flagRe.ReplaceAllString(sb, ""):
 			// only the closed flags of the vertex differ
@@ -1517,6 +1549,7 @@ type c1slot struct {
 	free  bool
 	refs  bool
 	lists bool
+	late  bool
 	depth int
 	seed  *Rng // rearrangement seed
 }
@@ -1542,6 +1575,12 @@ func c1Slots(c *Cfg, repo string, r *Rng) []c1slot {
 	lr := r.Sub()
 	for i := 0; i < c.Pick(250, 1500); i++ {
 		slots = append(slots, c1slot{prog: c1prog{name: fmt.Sprintf("lists#%d", i), stream: "lists"}, gen: lr.Sub(), lists: true})
+	}
+	// the late-constraints stream draws from its own generator root, so that the programs of
+	// the other streams do not depend on it
+	ltr := NewRng(c.Seed ^ 0x1a7e)
+	for i := 0; i < c.Pick(700, 4000); i++ {
+		slots = append(slots, c1slot{prog: c1prog{name: fmt.Sprintf("late#%d", i), stream: "late"}, gen: ltr.Sub(), late: true})
 	}
 	mr := r.Sub()
 	for i := 0; i < nMarks; i++ {
@@ -1585,6 +1624,26 @@ func c1Worker(c *Cfg, w, n, start int) {
 		x.idx = i
 		if sl.lists {
 			sl.prog.src = (&c1listgen{r: sl.gen.Sub()}).Program()
+		} else if sl.late {
+			// holders must be error-free (in the generated order): redraw otherwise
+			okProg := false
+			var g *c1lategen
+			for try := 0; try < 8 && !okProg; try++ {
+				g = &c1lategen{r: sl.gen.Sub(), counts: map[string]int{}}
+				lp := g.Program()
+				sl.prog.src, sl.prog.extra = lp.src, lp.extra
+				x.note(i, sl.prog.name, []string{sl.prog.src})
+				okProg = c1lateHolderOK(c1Eval([]string{sl.prog.src}))
+			}
+			if !okProg {
+				c.Count("late:dropped-erroneous-holder")
+				continue
+			}
+			for k, n := range g.counts {
+				for j := 0; j < n; j++ {
+					c.Count("late:" + k)
+				}
+			}
 		} else if sl.refs {
 			// the HOLDERS (#A, #B, A, B and their aliases) must be error-free: references INTO
 			// erroneous structs are the error-placement findings and would drown the stream;
